@@ -22,7 +22,7 @@ var symBytes = map[string]string{
 	"LP": "(", "RP": ")", "LS": "[", "RS": "]", "LC": "{", "RC": "}", "COLON": ":", "PLUS": "+", "EQ": "=",
 	"GT": ">", "TILDE": "~", "CARET": "^", "LT": "<",
 	"HASH": "#", "SEMI": ";", "PCT": "%", "COMMA": ",", "NUL": "\x00", "BAD": "\xff", "NBSP": " ",
-	"BANG": "!", "AMP": "&", "PIPE": "|", "AT": "@", "USYM": "\u203a", "LSEP": "\u2028", "DEL": "\x7f", "CTRL": "\x01", "UREPL": "\ufffd", "LDQ": "\u201c", "RDQ": "\u201d",
+	"BANG": "!", "AMP": "&", "PIPE": "|", "AT": "@", "USYM": "\u203a", "LSEP": "\u2028", "DEL": "\x7f", "CTRL": "\x01", "UREPL": "\ufffd", "LDQ": "\u201c", "RDQ": "\u201d", "USUP": "\u00b2", "UFRAC": "\u00bd",
 	"BS": "\\", "MINUS": "-", "DOT": ".", "DQ": "\"", "SQ": "'", "SL": "/",
 }
 
